@@ -169,7 +169,8 @@ class Elastic(_Simu):
             iter = {}
 
         iter["displacement"] = self.displacement
-        if self.algo in AlgoType.Get_Hyperbolic_Types():
+        if self.algo in AlgoType.Get_Hyperbolic_and_Parabolic_Types():
+            # the parabolic scheme carries a velocity too (and leaves the acceleration untouched)
             iter["speed"] = self.speed
             iter["accel"] = self.accel
 
@@ -184,7 +185,7 @@ class Elastic(_Simu):
         u = results["displacement"]
 
         if (
-            self.algo in AlgoType.Get_Hyperbolic_Types()
+            self.algo in AlgoType.Get_Hyperbolic_and_Parabolic_Types()
             and "speed" in results
             and "accel" in results
         ):
